@@ -80,7 +80,9 @@ def literal(scanner: Scanner, ctx: dict):
             if ch == Chars.CurlyBracketOpen:
                 ctx['expression'] += 1
             elif ch == Chars.CurlyBracketClose:
-                if ctx['expression'] > expression_start:
+                # NB: a literal may start inside nested expression (after `$` in `{a{$}b}`):
+                # compare with depth of outer expression, not with depth at literal start
+                if ctx['expression'] > 1:
                     ctx['expression'] -= 1
                 else:
                     break
